@@ -111,6 +111,29 @@ def check_parser(case):
                     viol.append({"kind": "wrong-column-mapping", "detail": {**sub, "expected": exp, "got": got}})
                 elif spec.description_column is None and spec.description_template != tplv:
                     viol.append({"kind": "wrong-column-mapping", "detail": {**sub, "expected_template": tplv, "got": spec.description_template}})
+    # duplicates spelled with different letter case must still be rejected: every upper/lower mask over the tokens
+    names = [t.lstrip("+-") for t in toks if t not in ("_", "*")]
+    if len(set(names)) < len(names):
+        from tally.format_parser import parse_format_string as pfs
+        for mask in itertools.product((0, 1), repeat=len(toks)):
+            if not any(mask):
+                continue
+            cells = []
+            for t, up in zip(toks, mask):
+                sign = t[0] if t[0] in "+-" else ""
+                nm = t.lstrip("+-")
+                cells.append("{" + sign + (nm.upper() if up else nm) + "}")
+            fs = ",".join(cells)
+            for tpl in (None, "{a}"):
+                verdict, exp = ref.expected(toks, None, tpl)
+                if verdict != "reject":
+                    continue
+                evals += 1
+                try:
+                    pfs(fs, tpl)
+                    viol.append({"kind": "invalid-format-accepted", "detail": {"format": fs, "template": tpl, "reason_it_is_invalid": exp}})
+                except ValueError:
+                    pass
     return {"evals": evals, "nontrivial": nontrivial, "outcomes": sorted(outcomes)[:5], "violations": viol[:20],
             "sample_repr": {"format": render(toks, None, 0)}}
 
